@@ -54,7 +54,12 @@ def hub_world(ctx):
     W.principals = {'owner': W.owner, 'pending': W.pending, 'dispatcher': W.dispatcher, 'registry': W.registry,
                     'updater': W.updater, 'self': W.hub_addr, 'airdrop': W.airdrop, 'bsei_token': W.bsei_token,
                     'stsei_token': W.stsei_token}
-    W.install(new_owner=W.pending)
+    # every optional contract address of the configuration may still be unset (a hub configured step by step)
+    opt = {}
+    for fname, who in (('reward_dispatcher_contract', W.dispatcher), ('validators_registry_contract', W.registry), ('bsei_token_contract', W.bsei_token),
+                       ('stsei_token_contract', W.stsei_token), ('airdrop_registry_contract', W.airdrop), ('rewards_contract', W.rewards)):
+        opt[fname] = SymEnum(W.iv('cfg_%s_set' % fname, 0, 1), (NONE, some(W.mk.caddr(who))))
+    W.install(config=W.config_value(**opt), new_owner=W.pending)
     W.sv = lambda name: sv_(W, name)
     return W
 
